@@ -67,6 +67,7 @@ def hazard_pointer_rules(ctx):
     present(ctx, "HP.block-init", CB + "initialize", {"k": "call", "field": "number_of_active_hps", "op": "fetch_add"}, label="count+")
     present(ctx, "HP.block-init", CB + "abandon", {"k": "call", "field": "number_of_active_hps", "op": "fetch_sub"}, label="count-")
     present(ctx, "HP.block-init", CB + "abandon", call("entry::abandon"), label="entry-abandon")
+    _counter_balance(ctx, "HP.block-init", CB, "number_of_active_hps")
     # the free list of an adopted block is rebuilt over ALL blocks of the dynamic strategy
     DB = R + "detail::dynamic_hp_thread_control_block::"
     present(ctx, "HP.block-init", DB + "initialize_next_block", call("initialize_block"), label="rebuilds-first-extra-block",
@@ -76,15 +77,34 @@ def hazard_pointer_rules(ctx):
     present(ctx, "HP.block-init", CB + "initialize_block", call("initialize_next_block"), label="chains-to-next-block")
     present(ctx, "HP.block-init", CB + "initialize", call("initialize_block"), label="initialize-rebuilds")
     # C18.c exhaustion is reported, slots are recycled
-    guarded(ctx, "HP.slots", CB + "alloc_hazard_pointer", call("need_more_hps"), {"k": "bin", "expr_re": r"^\(result == nullptr\)$", "desc": "result == nullptr"}, True,
+    guarded(ctx, "HP.slots", CB + "alloc_hazard_pointer", call("need_more_hps"), {"k": "bin", "pred": lambda fn, nid: fn.nodes[nid].get("op") == "==" and "nullptr" in fn.expr(nid) and flow.has_src(fn, nid, "param#0"), "desc": "hint == nullptr"}, True,
             label="need_more|null")
-    chain(ctx, "HP.slots", CB + "alloc_hazard_pointer", [{"k": "decl", "expr_re": r"^result = hint$", "desc": "result = hint"}, call("get_link")], label="hint<get_link")
+    present(ctx, "HP.slots", CB + "alloc_hazard_pointer", call("get_link"), label="pops-free-list")
     _throws_only(ctx, "HP.slots", R + "detail::static_hp_thread_control_block::need_more_hps", "bad_hazard_pointer_alloc")
-    chain(ctx, "HP.slots", CB + "release_hazard_pointer", [call("set_link"), {"k": "bin", "expr_re": r"^\(hint = hp\)$", "desc": "hint = hp"}], label="relink",
+    chain(ctx, "HP.slots", CB + "release_hazard_pointer", [call("set_link"), {"k": "bin", "pred": lambda fn, nid: fn.nodes[nid].get("op") == "=" and all(fn.nodes[k]["k"] == "ref" and fn.nodes[k].get("dk") == "param" for k in fn.kids(nid)),
+                              "desc": "hint = released slot"}], label="relink",
           why="a released slot must be linked back into the free list (slot reuse)")
     chain(ctx, "HP.slots", R + "detail::dynamic_hp_thread_control_block::allocate_new_hazard_pointer_block",
           [{"k": "call", "field": "number_of_active_hps", "op": "fetch_add"}, {"k": "call", "field": "hp_block", "op": "store"}], label="grow")
     chain(ctx, "HP.slots", HP + "guard_ptr::reset", [call("release_hazard_pointer")], label="reset-releases")
+
+
+def _counter_balance(ctx, rid, CB, field):
+    """abandon() gives back exactly what initialize() registered (same amount expression)"""
+    adds, subs = [], []
+    for fn in flow._shapes(ctx, CB + "initialize"):
+        adds += [(fn, e) for e in flow.find(fn, {"k": "call", "field": field, "op": "fetch_add"})]
+    for fn in flow._shapes(ctx, CB + "abandon"):
+        subs += [(fn, e) for e in flow.find(fn, {"k": "call", "field": field, "op": "fetch_sub"})]
+    if not adds or not subs:
+        return
+    a_txt = {f.expr(f.kids(e)[1]) for f, e in adds}
+    for f, e in subs:
+        t = f.expr(f.kids(e)[1])
+        ctx.check(t in a_txt, rid, CB + "abandon#gives-back-what-initialize-registered", "abandon subtracts %s, initialize adds %s" % (t, sorted(a_txt)),
+                  "abandon() subtracts %s from %s but initialize() adds %s: with the dynamic strategy a block that grew is re-registered with its full size on every "
+                  "adoption and gives back less on exit - the active-slot count (and with it the scan threshold) grows with the number of threads ever created" % (
+                      t, field, sorted(a_txt)), f.where(e), fn=f)
 
 
 def _hp_acquire_exit(ctx, HP):
@@ -194,6 +214,7 @@ def hazard_eras_rules(ctx):
     present(ctx, "HE.block-init", CB + "initialize", {"k": "call", "field": "number_of_active_hes", "op": "fetch_add"}, label="count+")
     present(ctx, "HE.block-init", CB + "abandon", {"k": "call", "field": "number_of_active_hes", "op": "fetch_sub"}, label="count-")
     present(ctx, "HE.block-init", CB + "abandon", call("entry::abandon"), label="entry-abandon")
+    _counter_balance(ctx, "HE.block-init", CB, "number_of_active_hes")
     DB = R + "detail::dynamic_he_thread_control_block::"
     present(ctx, "HE.block-init", DB + "initialize_next_block", call("initialize_block"), label="rebuilds-first-extra-block")
     present(ctx, "HE.block-init", DB + "hazard_eras_block::initialize_next_block", call("initialize_block"), label="rebuilds-following-blocks")
@@ -216,13 +237,19 @@ def hazard_eras_rules(ctx):
             ok2 = any(fn.before(a, o) or fn.before(o, a) for o in others)
             ctx.check(ok2, "HE.exception-safety", CB + "alloc_hazard_era#cache-fields-paired", "cache fields updated together", "last_era and last_hazard_era are not updated on the same path", fn.where(a), fn=fn)
     # slots
-    guarded(ctx, "HE.slots", CB + "alloc_hazard_era", call("need_more_hes"), {"k": "bin", "expr_re": r"^\(result == nullptr\)$", "desc": "result == nullptr"}, True,
+    guarded(ctx, "HE.slots", CB + "alloc_hazard_era", call("need_more_hes"), {"k": "bin", "pred": lambda fn, nid: fn.nodes[nid].get("op") == "==" and "nullptr" in fn.expr(nid) and flow.has_src(fn, nid, "param#0"), "desc": "hint == nullptr"}, True,
             label="need_more|null")
-    chain(ctx, "HE.slots", CB + "alloc_hazard_era", [call("get_link"), call("set_era"), call("hazard_era::add_guard", expr_re=r"^result")], mode="dom", label="link<era<guard")
+    chain(ctx, "HE.slots", CB + "alloc_hazard_era", [call("get_link"), call("set_era"), call("hazard_era::add_guard", pred=lambda fn, nid: "last_hazard_era" not in fn.expr(nid))], mode="dom", label="link<era<guard")
     _throws_only(ctx, "HE.slots", R + "detail::static_he_thread_control_block::need_more_hes", "bad_hazard_era_alloc")
     guarded(ctx, "HE.slots", CB + "release_hazard_era", call("set_link"), {"k": "bin", "expr_re": r"release_guard\(\) == 0", "desc": "release_guard() == 0"}, True,
             label="free|last-guard", why="a hazard era slot is shared by guards of the same era; it may be recycled only when the last guard leaves")
     chain(ctx, "HE.slots", HE + "guard_ptr::reset", [call("release_hazard_era")], label="reset-releases")
+    # a hazard era slot is shared by copies / same-era guards: its era may only be overwritten by its sole owner
+    for f in ("guard_ptr::acquire", "guard_ptr::acquire_if_equal"):
+        guarded(ctx, "HE.shared-slot", HE + f, call("set_era"), {"k": "bin", "pred": lambda fn, nid: fn.nodes[nid].get("op") == "==" and "call:guards" in flow.srcs(fn, nid)
+                                                              and any(fn.nodes[k].get("v") == 1 for k in fn.kids(nid)), "desc": "guards() == 1"}, True,
+                label=f.split("::")[-1] + ":set_era|sole-owner",
+                why="re-using a slot that other guards share moves their protected era as well: an object a copied guard still refers to is no longer covered")
     # C01.b the era that decides the return follows the load of the pointer
     for f in ("guard_ptr::acquire", "guard_ptr::acquire_if_equal"):
         chain(ctx, "HE.era-after-load", HE + f, [{"k": "call", "field": "param:p", "op": "load", "desc": "load of the source"},
@@ -393,13 +420,46 @@ def qsbr_rules(ctx):
                   "adopt_orphans must re-file adopted orphans into the adopter's retire lists", fn.where(), fn=fn)
     _number_epochs(ctx, TD + "quiescent_state", "QSBR.constants")
     # activity conjunct
-    guarded(ctx, "QSBR.activity", TD + "try_update_epoch::(lambda0)::operator()", call("is_active"), {"k": "bin", "expr_re": r"local_epoch\.load\(.*\) == old_epoch", "desc": "local_epoch == old_epoch"},
+    guarded(ctx, "QSBR.activity", TD + "try_update_epoch::(lambda0)::operator()", call("is_active"), {"k": "bin", "pred": lambda fn, nid: fn.nodes[nid].get("op") == "==" and flow.has_src(fn, nid, "load:local_epoch"), "desc": "local_epoch == old_epoch"},
             True, label="is_active-conjunct", why="an exited thread (inactive block) must not block the epoch")
     for fn in flow._shapes(ctx, TD + "try_update_epoch::(lambda0)::operator()"):
         ok = bool(flow.find(fn, call("is_active")))
         ctx.check(ok, "QSBR.activity", TD + "try_update_epoch#is_active", "blocking predicate tests is_active", "the blocking predicate ignores is_active", fn.where(), fn=fn)
     # thread exit: orphan created with the retire lists, before the block is released
     _exit_handover(ctx, "QSBR.thread-exit", TD + "~thread_data", "retire_lists", call("abandon_retired_nodes"), call("release_entry"))
+    # the orphan of an exiting thread is filed under global_epoch - 1 (mod number_epochs): a full cycle of epochs must pass before it is freed
+    from .evalx import evalx, Unknown
+    for fn in flow._shapes(ctx, TD + "~thread_data"):
+        orphans = flow.find(fn, {"k": "new"})
+        inst = TD + "~thread_data#orphan-target-epoch"
+        tgt = None
+        for o in orphans:
+            for x in fn.subtree(o):
+                xn = fn.nodes[x]
+                if xn["k"] == "construct" and xn.get("callee", "").endswith("orphan::orphan") and fn.kids(x):
+                    tgt = fn.kids(x)[0]
+        if tgt is None:
+            ctx.bad("QSBR.thread-exit", inst, "no orphan is created for the pending retire lists", fn.where(), fn=fn)
+            continue
+        N = None
+        for x in fn.subtree(tgt) + [y for d in ([flow.unique_def(fn, fn.nodes[tgt].get("name"))] if fn.nodes[tgt]["k"] == "ref" else []) if d is not None for y in fn.subtree(d)]:
+            xn = fn.nodes[x]
+            if xn["k"] in ("ref", "member") and xn.get("name", "").endswith("number_epochs") and "v" in xn:
+                N = xn["v"]
+        bad = None
+        try:
+            for g in range(0, (N or 3)):
+                got = evalx(fn, tgt, {"call:load": (lambda *a, g=g: g)})
+                if got != (g - 1) % (N or 3):
+                    bad = (g, got)
+        except Unknown as ex:
+            ctx.broken.append("QSBR ~thread_data: target epoch not evaluable (%s)" % ex)
+            continue
+        ctx.exhaustive["QSBR.thread-exit"] = True
+        ctx.check(bad is None, "QSBR.thread-exit", inst, "orphan target epoch == global_epoch - 1 (mod %s) for every epoch" % N,
+                  "an exiting thread files its pending nodes under epoch %s when the global epoch is %s (expected %s): the orphan is destroyed in the quiescent state in "
+                  "which it is adopted, while a reader that entered its region before the exit still holds a guard" % (
+                      bad[1] if bad else "", bad[0] if bad else "", ((bad[0] - 1) % (N or 3)) if bad else ""), fn.where(tgt), fn=fn)
     # block init: store + validating CAS
     chain(ctx, "QSBR.block-init", TD + "ensure_has_control_block", [call("acquire_entry"), {"k": "call", "field": "local_epoch", "op": "store"}, GE_CAS], label="acquire<store<cas",
           why="the local epoch of an adopted block is set and validated against the global epoch")
@@ -418,17 +478,19 @@ def stamp_rules(ctx):
     rid = "STAMP.protocol"
     ctx.rule(rid, "stamp-it: a retired node is stamped with the head stamp before it enters a retire list and destroyed only if its stamp "
                   "is <= the tail stamp; next pointers are read before delete_self; the last leaver processes the global list")
-    STAMP_LE = {"k": "bin", "expr_re": r"stamp <= tail_stamp", "desc": "stamp <= tail_stamp"}
+    STAMP_LE = {"k": "bin", "pred": lambda fn, nid: fn.nodes[nid].get("op") == "<=" and flow.has_src(fn, fn.kids(nid)[0], "field:stamp") and (
+        flow.has_src(fn, fn.kids(nid)[1], "call:tail_stamp") or flow.has_src(fn, fn.kids(nid)[1], "field:tail_stamp") or
+        any(t.startswith("local:") for t in flow.srcs(fn, fn.kids(nid)[1]))), "desc": "stamp <= tail_stamp"}
     guarded(ctx, "STAMP.delete-licensed", TD + "process_local_nodes", call("delete_self"), STAMP_LE, True, label="delete|stamp<=tail")
     chain(ctx, rid, TD + "process_local_nodes", [call("tail_stamp"), call("delete_self")], label="tail_stamp<delete")
     guarded(ctx, "STAMP.delete-licensed", TD + "process_global_nodes::(lambda0)::operator()", call("delete_self"), STAMP_LE, True, label="delete|stamp<=tail")
-    chain(ctx, rid, TD + "process_global_nodes::(lambda0)::operator()", [{"k": "decl", "expr_re": r"^next = cur->next", "desc": "next = cur->next"}, call("delete_self")],
+    chain(ctx, rid, TD + "process_global_nodes::(lambda0)::operator()", [{"k": "decl", "pred": lambda fn, nid: any("init" in v and flow.has_src(fn, v["init"], "field:next") for v in fn.nodes[nid]["vars"]), "desc": "successor read (x = cur->next)"}, call("delete_self")],
           label="next<delete", why="the successor must be read before the node is destroyed")
-    chain(ctx, rid, TD + "process_local_nodes", [{"k": "bin", "expr_re": r"^\(next = cur->next\)", "desc": "next = cur->next"}, call("delete_self")],
+    chain(ctx, rid, TD + "process_local_nodes", [{"k": "bin", "pred": lambda fn, nid: fn.nodes[nid].get("op") == "=" and flow.has_src(fn, fn.kids(nid)[1], "field:next") and fn.nodes[fn.kids(nid)[0]]["k"] == "ref", "desc": "successor read (x = cur->next)"}, call("delete_self")],
           label="next<delete")
     chain(ctx, rid, TD + "process_global_nodes", [call("tail_stamp"), call("steal_global_retired_nodes")], label="tail_stamp<steal",
           why="the tail stamp used for the test must not be newer than the list it is applied to ... it must be read before stealing")
-    chain(ctx, rid, TD + "add_retired_node", [call("head_stamp"), {"k": "bin", "expr_re": r"^\(\*this->prev_retired_node = p\)", "desc": "*prev_retired_node = p"}],
+    chain(ctx, rid, TD + "add_retired_node", [call("head_stamp"), {"k": "bin", "expr_re": r"^\(\*this->prev_retired_node = ", "desc": "*prev_retired_node = p"}],
           label="stamp<insert")
     chain(ctx, rid, TD + "enter_region", [call("ensure_has_control_block"), call("thread_order_queue::push")], label="block<push")
     guarded(ctx, rid, TD + "enter_region", call("thread_order_queue::push"), {"k": "bin", "expr_re": r"\+\+this->region_entries == 1", "desc": "++region_entries == 1"}, True,
@@ -461,8 +523,8 @@ def lfrc_rules(ctx):
     # return paths of acquire: only via q == reload (or null)
     for fn in flow._shapes(ctx, L + "guard_ptr::acquire_if_equal"):
         rets = [e for e in flow.find(fn, {"k": "return"}) if fn.kids(e) and fn.nodes[fn.kids(e)[0]].get("v") == 1]
-        eqp = lambda f, nid: f.nodes[nid]["k"] == "call" and f.nodes[nid].get("callee", "").endswith("operator==") and "p.load" in f.expr(nid)
-        nullq = lambda f, nid: f.nodes[nid]["k"] == "bin" and "q.get() == nullptr" in f.expr(nid)
+        eqp = lambda f, nid: f.nodes[nid]["k"] == "call" and f.nodes[nid].get("callee", "").endswith("operator==") and flow.has_src(f, nid, "load:param#0")
+        nullq = lambda f, nid: f.nodes[nid]["k"] == "bin" and f.nodes[nid]["op"] == "==" and "nullptr" in f.expr(nid) and flow.has_src(f, nid, "load:param#0")
         okall = True
         for r in rets:
             ok, p, n = flow.only_via(fn, r, lambda f, nid: eqp(f, nid) or nullq(f, nid), True)
